@@ -4,8 +4,8 @@ registered checks report a VIOLATION for it? Updates seeded/<id>/meta.json (dete
 import json, os, subprocess, sys, re
 ids = sys.argv[1:] or sorted(d for d in os.listdir('/verif/seeded') if not d.startswith('_'))
 # checks to try per property (first the property's own check, then related ones)
-RELATED = {"C01":["C01","C07"],"C02":["C02","C06","C04"],"C03":["C03","C15"],"C04":["C04","C10"],"C05":["C05","C07"],"C06":["C06","C07"],"C07":["C07","C06"],
- "C08":["C08","C16","C07"],"C09":["C09"],"C10":["C10"],"C11":["C11","C12"],"C12":["C12"],"C13":["C13","C01"],"C14":["C14","C01"],"C15":["C15","C03"],"C16":["C16"],
+RELATED = {"C01":["C01","C07"],"C02":["C02","C06","C04","C07"],"C03":["C03","C15"],"C04":["C04","C10"],"C05":["C05","C07","C14"],"C06":["C06","C07"],"C07":["C07","C06","C10"],
+ "C08":["C08","C16","C07"],"C09":["C09"],"C10":["C10"],"C11":["C11","C12"],"C12":["C12"],"C13":["C13","C01"],"C14":["C14","C01","C07"],"C15":["C15","C03"],"C16":["C16","C06"],
  "C17":["C17"],"C18":["C18","C05","C07"],"C19":["C19","C06","C07"],"C20":["C20","C04"]}
 def sh(c, **k): return subprocess.run(c, shell=True, capture_output=True, text=True, **k)
 head = sh("git -C /repo rev-parse --short HEAD").stdout.strip()
